@@ -1,7 +1,7 @@
 """Per-property run definitions (tiers, case counts, floors)."""
 import vdriver as V
 
-SETUP_BUILDS = [('asan', ('pbt', 'replay'))]
+SETUP_BUILDS = [('asan', ('pbt', 'replay')), ('plain', ('replay',)), ('tsan', ('mt',))]
 RUNNERS = {}
 REPLAYERS = {}
 
@@ -470,3 +470,237 @@ def c15(tier):
                              extra_cov={'directed_objects': sorted(objs)})
     finally:
         shutil.rmtree(d, ignore_errors=True)
+
+# ---- C18: independent objects on different threads (ThreadSanitizer + sequential differential) -----------
+def _c18_run_lists(mt_bin, lists, tier):
+    import os, subprocess, json
+    from concurrent.futures import ThreadPoolExecutor
+    def work(lst):
+        st = lst + '.json'
+        env = V.base_env({'TSAN_OPTIONS': 'halt_on_error=1 exitcode=66 report_signal_unsafe=0', 'VERIF_TIER': tier})
+        r = subprocess.run([mt_bin, '--batch', lst, st], stdout=subprocess.PIPE, stderr=subprocess.STDOUT, text=True, errors='replace', env=env)
+        stats = None
+        if os.path.exists(st):
+            with open(st) as f:
+                stats = json.load(f)
+            os.remove(st)
+        return lst, r.returncode, r.stdout, stats
+    with ThreadPoolExecutor(max_workers=4) as ex:
+        return list(ex.map(work, lists))
+
+def _c18_compose(cases, reps, rnd, outdir):
+    import os
+    paths = []
+    for r in range(reps):
+        k = [2, 4, 8, 16][r % 4]
+        pick = [cases[rnd.randrange(len(cases))] for _ in range(k)]
+        body = 'property: C18\nmt %d %d\n' % (k, rnd.randrange(1, 10**9))
+        for pth in pick:
+            with open(pth) as f:
+                ops = [l for l in f.read().splitlines() if l.strip() and not l.startswith('property:') and not l.startswith('#')]
+            body += 'thread\n' + '\n'.join(ops) + '\n'
+        p = os.path.join(outdir, 'rep%05d.case' % r)
+        with open(p, 'w') as f:
+            f.write(body)
+        paths.append(p)
+    return paths
+
+@reg('C18')
+def c18(tier):
+    import os, shutil, subprocess, time, glob, random
+    t0 = time.time()
+    res = V.Result()
+    try:
+        bins = V.B.build('asan', ('pbt', 'replay'))
+        ts = V.B.build('tsan', ('mt',))
+    except RuntimeError as e:
+        res.broken = 'build failed: ' + str(e)[:2000]
+        return V.finish('C18', tier, 'exploration', res, {'evaluations': 0, 'distinct_nontrivial': 0, 'rule': '', 'samples': []}, t0)
+    reps = 5000 if tier == 'thorough' else 240
+    cdir = os.path.join(V.WORK, 'c18-%d' % os.getpid())
+    shutil.rmtree(cdir, ignore_errors=True); os.makedirs(os.path.join(cdir, 'corpus')); os.makedirs(os.path.join(cdir, 'reps'))
+    subprocess.run([bins['pbt'], 'C14', '--n', '400' if tier == 'quick' else '3000', '--seed', str(V.seed() * 1000 + 700), '--emit', os.path.join(cdir, 'corpus'), '--work', V.WORK],
+                   stdout=subprocess.DEVNULL, stderr=subprocess.DEVNULL, env=V.base_env({'VERIF_TIER': tier}))
+    cases = sorted(glob.glob(os.path.join(cdir, 'corpus', '*.case')))
+    rnd = random.Random(V.seed())
+    paths = _c18_compose(cases, reps, rnd, os.path.join(cdir, 'reps'))
+    nl = 8 if tier == 'quick' else 32
+    lists = []
+    for i in range(nl):
+        lst = os.path.join(cdir, 'list%d.txt' % i)
+        with open(lst, 'w') as f:
+            f.write('\n'.join(paths[i::nl]) + '\n')
+        lists.append(lst)
+    total = 0; overlapping = 0; threads = 0; samples = []
+    for lst, rc, out, stats in _c18_run_lists(ts['mt'], lists, tier):
+        if stats:
+            total += stats['repetitions']; overlapping += stats['overlapping']; threads += stats['threads_run']; samples += stats['samples'][:1]
+        running = [l.split(' ', 1)[1] for l in out.splitlines() if l.startswith('RUNNING ')]
+        if rc == 66 or 'ThreadSanitizer' in out:
+            lines = [l.strip() for l in out.splitlines() if 'WARNING: ThreadSanitizer' in l or l.strip().startswith('#0') or l.strip().startswith('#1')][:6]
+            if running:
+                with open(running[-1]) as f:
+                    pth = V.save_replay('C18', f.read(), 'ThreadSanitizer: ' + ' | '.join(lines))
+                res.violations.append((pth, 'ThreadSanitizer report while independent objects were used from different threads: ' + ' | '.join(lines)[:700]))
+        elif stats and not stats['ok'] and stats.get('fail_case'):
+            with open(stats['fail_case']) as f:
+                pth = V.save_replay('C18', f.read(), stats['fail_msg'])
+            res.violations.append((pth, stats['fail_msg']))
+        elif rc != 0:
+            tail = ' '.join(out.splitlines()[-8:])[-600:]
+            if running:
+                with open(running[-1]) as f:
+                    pth = V.save_replay('C18', f.read(), 'process exit %s: %s' % (rc, tail))
+                res.violations.append((pth, 'multi-threaded run aborted (exit %s): %s' % (rc, tail)))
+            else:
+                res.broken = 'mt runner failed: ' + tail
+    shutil.rmtree(cdir, ignore_errors=True)
+    cov = {'evaluations': total, 'distinct_nontrivial': overlapping,
+           'rule': 'one evaluation = one repetition: k in {2,4,8,16} threads, each running its own generated script (own object, own scratch dir) behind a barrier with generated yields/spins/sleeps before operations; non-trivial = at least two threads were inside a load or a save at overlapping times (measured, statistic only); distinct by (scripts, schedule seed)',
+           'samples': samples[:3] or ['(no overlapping repetition sampled)'], 'threads_run': threads,
+           'engine': 'clang ThreadSanitizer build of /repo + harness (halt_on_error), sequential differential on traces (snapshot digest after every operation, digest of the saved bytes)'}
+    return V.finish('C18', tier, 'exploration', res, cov, t0, floor=20,
+                    assumptions=['schedules are sampled (perturbed), not enumerated: a race that needs a rare interleaving can be missed',
+                                 'print() is not called concurrently (it writes to the process-wide std::cout)'])
+
+def c18_replay(path):
+    import os
+    ts = V.B.build('tsan', ('mt',))
+    lst = os.path.join(V.WORK, 'c18-replay-%d.txt' % os.getpid())
+    os.makedirs(V.WORK, exist_ok=True)
+    with open(lst, 'w') as f:
+        f.write('\n'.join([os.path.abspath(path)] * 5) + '\n')
+    out = _c18_run_lists(ts['mt'], [lst], 'quick')
+    os.remove(lst)
+    for l, rc, o, stats in out:
+        print(o[-3000:])
+        if rc != 0:
+            print('VIOLATION property=C18 replay=%s' % path); return 1
+    return 0
+REPLAYERS['C18'] = c18_replay
+
+# ---- C19: results do not depend on optimisation level or library kind ------------------------------------
+def _c19_traces(traces, cases, workdir):
+    import os, subprocess
+    from concurrent.futures import ThreadPoolExecutor
+    nsplit = 3
+    jobs = []
+    for name, binp in traces.items():
+        for i in range(nsplit):
+            part = cases[i::nsplit]
+            if part:
+                jobs.append((name, i, binp, part))
+    def work(j):
+        name, i, binp, part = j
+        lst = os.path.join(workdir, 'l-%s-%d.txt' % (name, i)); out = os.path.join(workdir, 'o-%s-%d.txt' % (name, i))
+        with open(lst, 'w') as f:
+            f.write('\n'.join(part) + '\n')
+        r = subprocess.run([binp, '--batch', lst, out], stdout=subprocess.PIPE, stderr=subprocess.STDOUT, text=True, errors='replace', env=V.base_env())
+        d = {}
+        if os.path.exists(out):
+            with open(out) as f:
+                for line in f:
+                    a = line.rstrip('\n').split('\t')
+                    if len(a) == 2:
+                        d[a[0]] = a[1]
+        return name, i, r.returncode, r.stdout[-500:], d, out + '.full'
+    with ThreadPoolExecutor(max_workers=16) as ex:
+        return list(ex.map(work, jobs))
+
+def _trace_of(fullfile, case_path):
+    out = []; on = False
+    try:
+        with open(fullfile, errors='replace') as f:
+            for line in f:
+                if line.startswith('== '):
+                    on = (line[3:].strip() == case_path)
+                    continue
+                if on:
+                    out.append(line.rstrip('\n'))
+    except OSError:
+        pass
+    return out
+
+@reg('C19')
+def c19(tier):
+    import os, shutil, subprocess, time, glob
+    t0 = time.time()
+    res = V.Result()
+    try:
+        bins = V.B.build('asan', ('pbt', 'replay'))
+        traces = V.B.build_cmake_traces()
+    except RuntimeError as e:
+        res.broken = 'build failed: ' + str(e)[:2000]
+        return V.finish('C19', tier, 'exploration', res, {'evaluations': 0, 'distinct_nontrivial': 0, 'rule': '', 'samples': []}, t0)
+    wd = os.path.join(V.WORK, 'c19-%d' % os.getpid())
+    shutil.rmtree(wd, ignore_errors=True); os.makedirs(wd)
+    n = 20000 if tier == 'thorough' else 600
+    procs = []
+    for i, (gid, share) in enumerate((('C14', 0.4), ('C02', 0.3), ('C10', 0.15), ('C17', 0.05), ('C16', 0.1))):
+        sd = os.path.join(wd, 'corpus-' + gid); os.makedirs(sd)
+        procs.append(subprocess.Popen([bins['pbt'], gid, '--n', str(max(10, int(n * share))), '--seed', str(V.seed() * 1000 + 900 + i), '--emit', sd, '--work', V.WORK],
+                                      stdout=subprocess.DEVNULL, stderr=subprocess.DEVNULL, env=V.base_env({'VERIF_TIER': tier})))
+    for p in procs:
+        p.wait()
+    cases = sorted(glob.glob(os.path.join(wd, 'corpus-*', '*.case'))) + V.corpus_cases('C04') + V.corpus_cases('C19')
+    results = _c19_traces(traces, cases, wd)
+    per_cfg = {}
+    fulls = {}
+    for name, i, rc, tail, d, full in results:
+        per_cfg.setdefault(name, {}).update(d)
+        fulls.setdefault(name, []).append(full)
+        if rc != 0:
+            res.cov.setdefault('inconclusive', []).append('trace driver of %s exited %s: %s' % (name, rc, tail[-200:]))
+    names = sorted(per_cfg)
+    compared = 0; nontrivial = 0; samples = []
+    for c in cases:
+        digs = [per_cfg[nm].get(c) for nm in names]
+        if any(x is None for x in digs):
+            continue
+        compared += 1
+        with open(c) as f:
+            text = f.read()
+        nt = ('\nload' in text) or ('\nreload' in text) or any(('\nprate %d' % k) in text for k in (15, 16, 17, 18))
+        if nt:
+            nontrivial += 1
+            if len(samples) < 3:
+                samples.append(text[:1200])
+        if len(set(digs)) != 1:
+            # find the first differing trace line between the first two configurations that disagree
+            ref = digs[0]; other = names[[i for i, x in enumerate(digs) if x != ref][0]]
+            ta = []; tb = []
+            for ff in fulls[names[0]]:
+                ta = ta or _trace_of(ff, c)
+            for ff in fulls[other]:
+                tb = tb or _trace_of(ff, c)
+            diff = ''
+            for la, lb in zip(ta, tb):
+                if la != lb:
+                    diff = '%s: %s | %s: %s' % (names[0], la[:200], other, lb[:200]); break
+            if len(res.violations) < 5:
+                pth = V.save_replay('C19', text, 'builds disagree: ' + diff)
+                res.violations.append((pth, 'the same calls give different results in different builds (%s): %s' % (', '.join('%s=%s' % (nm, dg[:8]) for nm, dg in zip(names, digs)), diff)))
+    shutil.rmtree(wd, ignore_errors=True)
+    cov = {'evaluations': compared, 'distinct_nontrivial': nontrivial, 'configurations': names,
+           'rule': 'one evaluation = one frozen case (API script or generated file + load, from the C01-C04/C10/C16/C17 generators, plus the vendor files) replayed by all 6 CMake builds; compared: outcome class of every call, full snapshot after every call (floats as bit patterns) and the bytes of the finally saved file; non-trivial = case that loads a file or uses a fractional frame rate; distinct by case text',
+           'samples': samples or ['(none)'],
+           'engine': 'project CMakeLists.txt, CMAKE_BUILD_TYPE in {Debug,RelWithDebInfo,Release} x BUILD_SHARED_LIBS in {ON,OFF}, g++; cross-build differential on traces'}
+    return V.finish('C19', tier, 'exploration', res, cov, t0, floor=50,
+                    assumptions=['one compiler (g++ 12); the harness objects are identical for all configurations, only the library differs',
+                                 'hooks are off in the CMake builds (guard undefined)'])
+
+def c19_replay(path):
+    import os, shutil
+    traces = V.B.build_cmake_traces()
+    wd = os.path.join(V.WORK, 'c19-replay-%d' % os.getpid())
+    os.makedirs(wd, exist_ok=True)
+    results = _c19_traces(traces, [os.path.abspath(path)], wd)
+    digs = {}
+    for name, i, rc, tail, d, full in results:
+        digs[name] = list(d.values())[0] if d else 'exit%s' % rc
+    shutil.rmtree(wd, ignore_errors=True)
+    print(digs)
+    if len(set(digs.values())) != 1:
+        print('VIOLATION property=C19 replay=%s' % path); return 1
+    return 0
+REPLAYERS['C19'] = c19_replay
